@@ -395,17 +395,20 @@ def who_may_write(prog, chk):
 
 def run(prog, chk, tier):
     chk.explanation = (
-        "Decision tables of add_attribute / add_raw_attribute / add_message_integrity / add_fingerprint extracted from MIR over "
-        "the predicate 'which queried type is present' (query lists resolved to constants) and compared with the spec (DESIGN "
-        "A.3): refused exactly when the queried set intersects the presence set; every refusing path has an empty event list "
-        "(no push, no field write: no trace); every accepting path pushes exactly one attribute and one type of the same kind; "
-        "who-may-write(attributes, attribute_types) = the four adders' pushes + builder()/into_owned; has_attribute / "
-        "has_any_attribute read only attribute_types. That the serialised result parses with valid integrity is C03/C04.")
+        "The four adders decided from the abstract interpreter's return states, with has_attribute / has_any_attribute "
+        "summarised as one question about a listed set of types (the list is tracked element by element through array "
+        "literals, constant arrays, element stores and sub-slices): add_attribute / add_raw_attribute ask about exactly "
+        "{the attribute's type, MESSAGE-INTEGRITY, MESSAGE-INTEGRITY-SHA256, FINGERPRINT}, add_message_integrity about "
+        "{MI (SHA-1 only), MI-SHA256, FINGERPRINT}, add_fingerprint about {FINGERPRINT}; the call is refused with the "
+        "documented error exactly when the answer is Some, and then pushes nothing; it is accepted when the answer is None "
+        "and then pushes exactly one attribute and one type of the same kind; the three sealing types cannot be added "
+        "through the generic adders. who-may-write(attributes, attribute_types) = the adders' pushes + builder()/into_owned; "
+        "has_attribute / has_any_attribute themselves are first-match searches of attribute_types. That the serialised "
+        "result parses with valid integrity is C03/C04.")
     chk.trusted += ["rustc MIR", "Vec/SmallVec push semantics", "Iterator::find/any semantics", "spec table in pylib/rules/c11.py"]
-    generic_adder(prog, chk, "add_attribute", raw=False)
-    generic_adder(prog, chk, "add_raw_attribute", raw=True)
-    integrity_adder(prog, chk)
-    fingerprint_adder(prog, chk)
-    unchecked_pushes(prog, chk)
+    from rules import content_e2 as CE
+    CE.adders(prog, chk)
+    CE.build_side(prog, chk, rule="add_message_integrity-pushes")
+    CE.fingerprint_build(prog, chk, rule="add_fingerprint-pushes")
     queries(prog, chk)
     who_may_write(prog, chk)
